@@ -435,6 +435,17 @@ def rsqrt(a):
     return SQRT(zr(a))
 
 
+def csqrt(a):
+    """principal square root of a complex number: with m = |a|,  sqrt(a) = sqrt((m + re)/2) + i sign(im) sqrt((m - re)/2)
+    (sign(0) = +1: the branch numpy/jax take for +0 imaginary parts)"""
+    if a.is_real() and is_conc(a.re) and a.re >= 0:
+        return CX(rsqrt(a.re), 0)
+    m = rsqrt(radd(rmul(a.re, a.re), rmul(a.im, a.im)))
+    re = rsqrt(rdiv(radd(m, a.re), 2, guard=False))
+    im = rsqrt(rdiv(rsub(m, a.re), 2, guard=False))
+    return CX(re, rite(rge(a.im, 0), im, rneg(im)))
+
+
 def rlog(a):
     if is_conc(a) and a == 1:
         return 0
